@@ -7,6 +7,7 @@ import (
 
 	"github.com/jhump/grpctunnel"
 	"github.com/jhump/grpctunnel/tunnelpb"
+	"google.golang.org/grpc/codes"
 	"google.golang.org/grpc/metadata"
 )
 
@@ -32,17 +33,24 @@ func c17Scenarios(tier string) []*Scenario {
 	if tier == "thorough" {
 		bound = 2
 	}
-	openMDs := []metadata.MD{nil, {"a": {"1"}}, {"a": {"1", "2"}, "b-bin": {"xyz"}}}
+	// the last two are opened from a context that ALSO carries incoming metadata (a tunnel opened
+	// from inside a request handler): that is not the metadata that opens the tunnel
+	openMDs := []metadata.MD{nil, {"a": {"1"}}, {"a": {"1", "2"}, "b-bin": {"xyz"}}, nil, {"a": {"1"}}}
+	inMD := metadata.MD{"a": {"from-the-request-being-handled"}, "unrelated": {"x"}}
 	for _, mode := range []string{"F", "R", "N"} {
 		for mi, omd := range openMDs {
 			mode, mi, omd := mode, mi, omd
+			withIn := mi >= 3
 			scs = append(scs, &Scenario{
 				Name: fmt.Sprintf("c17/%s/openmd%d", mode, mi), Prop: "C17",
-				Desc: fmt.Sprintf("tunnel mode %s (F forward, R reverse, N forward nested in forward) opened with metadata %s, a peer and an interceptor-set context value; two concurrent RPCs whose handlers and callers mutate every map the accessors return, then a third RPC reads them again", mode, mdString(omd)),
+				Desc: fmt.Sprintf("tunnel mode %s (F forward, R reverse, N forward nested in forward) opened with metadata %s (opening context also carries unrelated incoming metadata: %v), a peer and an interceptor-set context value; two concurrent RPCs whose handlers and callers mutate every map the accessors return, then a third RPC reads them again, then a unary RPC that fails", mode, mdString(omd), withIn),
 				Opt:  Options{Level: "io", Bound: bound},
 				Run: func(w *World) {
 					var t *Tun
 					cfg := TunCfg{Reverse: mode == "R", OpenMD: omd}
+					if withIn {
+						cfg.OpenInMD = inMD
+					}
 					var outer *Tun
 					if mode == "N" {
 						// outer forward tunnel whose handler exposes the tunnel service of the inner handler
@@ -58,6 +66,9 @@ func c17Scenarios(tier string) []*Scenario {
 						ctx, cancel := context.WithCancel(context.Background())
 						if omd != nil {
 							ctx = metadata.NewOutgoingContext(ctx, omd.Copy())
+						}
+						if withIn {
+							ctx = metadata.NewIncomingContext(ctx, inMD.Copy())
 						}
 						ch, err := grpctunnel.NewChannel(tunnelpb.NewTunnelServiceClient(outer.Ch)).Start(ctx)
 						if err != nil {
@@ -113,6 +124,12 @@ func c17Scenarios(tier string) []*Scenario {
 					hs := nomd.Handler
 					w.Scripts["*"] = &hs
 					w.Join(w.Go("caller:r4", true, func() { w.RunCall(t.Conn, &nomd.Call) }))
+					// a unary RPC that fails: the caller can still tell which channel carried it
+					fail := StdWorkload("r5", 5, "Unary", []int{3}, []int{3})
+					fail.Call.ChanOpt = true
+					fail.Call.Ops = append(fail.Call.Ops, COp{K: "targets"})
+					fail.Handler.Ops = []HOp{{K: "recv"}, {K: "return", Code: codes.Aborted, Msg: "scripted"}}
+					w.Join(w.StartCallers(t, []Workload{fail})...)
 					if mode == "N" {
 						t.Ch.Close()
 						w.Drain()
@@ -201,6 +218,12 @@ func c17Scenarios(tier string) []*Scenario {
 							}
 						}
 					}
+					for _, e := range w.EventsOf("caller:r5") {
+						wantCh := map[string]string{"F": "fwd:T", "R": "rev:T", "N": "fwd:inner"}[mode]
+						if e.Op == "targets" && !strings.Contains(e.Detail, "chT="+wantCh) {
+							bad("channel-identity", "ident:option-channel-failed-rpc", fmt.Sprintf("failed unary rpc r5: WithTunnelChannel target: %q, carried by %s", e.Detail, wantCh))
+						}
+					}
 					return dedupeViolations(vs)
 				},
 			})
@@ -223,6 +246,10 @@ func c17Scenarios(tier string) []*Scenario {
 					wl := StdWorkload(fmt.Sprintf("m%d", i), byte(10+i), []string{"Unary", "Bidi"}[i%2], []int{3}, []int{3})
 					wl.Call.ChanOpt = true
 					wl.Call.Ops = append(wl.Call.Ops, COp{K: "targets"})
+					if i == 2 {
+						// a unary RPC that fails is still attributed to the channel that carried it
+						wl.Handler.Ops = []HOp{{K: "recv"}, {K: "return", Code: codes.Aborted, Msg: "scripted"}}
+					}
 					wls = append(wls, wl)
 				}
 				t := &Tun{W: w, Conn: r.h.AsChannel()}
@@ -263,6 +290,6 @@ func c17Scenarios(tier string) []*Scenario {
 
 func init() {
 	register(&PropDef{ID: "C17", Level: "exploration",
-		Rule:      "tunnel modes {forward, reverse, forward nested in forward} x opening metadata {absent, a:[1], a:[1,2] b-bin:[..]} with a peer and an interceptor-set context value; two concurrent RPCs whose handlers and callers mutate every map returned by TunnelMetadataFromIncomingContext / TunnelMetadataFromOutgoingContext / metadata.FromIncomingContext, then a third RPC; 2-3 reverse tunnels behind one pooled channel with WithTunnelChannel and TunnelChannelFromContext; all schedules with <= 1 (quick) / 2 (thorough) deviations; oracle: accessor values equal the scripted opening values in every RPC before and after the mutations; reported channel == channel whose serving instance ran the handler",
+		Rule:      "tunnel modes {forward, reverse, forward nested in forward} x opening metadata {absent, a:[1], a:[1,2] b-bin:[..]; absent and a:[1] from a context that also carries unrelated incoming metadata} with a peer and an interceptor-set context value; two concurrent RPCs whose handlers and callers mutate every map returned by TunnelMetadataFromIncomingContext / TunnelMetadataFromOutgoingContext / metadata.FromIncomingContext, then a third RPC, one without request metadata and a unary RPC that fails; 2-3 reverse tunnels behind one pooled channel with WithTunnelChannel and TunnelChannelFromContext; all schedules with <= 1 (quick) / 2 (thorough) deviations; oracle: accessor values equal the scripted opening values in every RPC before and after the mutations; reported channel == channel whose serving instance ran the handler",
 		Scenarios: c17Scenarios})
 }
